@@ -39,6 +39,7 @@ class Cfg:
         self.break_rules = 0.0    # probability of deliberately breaking a placement rule (expected discards)
         self.unicode_breaks_in_comments = True
         self.leading_comma = True
+        self.dup_comments = 0.0      # probability that a comment line is drawn from a tiny pool (identical comments)
         self.inline_breaks = 0.12    # inline single-model targets: a gap becomes a line break (+ indent / inline comment)
         self.outer_trivia = 0.04     # inline single-model targets: blanks / newline around the model
         self.__dict__.update(kw)
@@ -99,6 +100,8 @@ class G:
 
     def comment_text(self) -> str:
         """text of one comment line after ';' (no \\r, \\n)"""
+        if self.c.dup_comments and self.p(self.c.dup_comments):
+            return self.pick([' ----', '', ' x', ' ----'])   # repeated identical comments (separator lines)
         if self.p(self.c.hazard_text):
             alphabet = [h for h in HAZARD if self.c.unicode_breaks_in_comments or h not in '\x0c\x0b\x1c\x1d\x1e\x85  ']
             return self.chars(alphabet, 0, 6)
